@@ -24,7 +24,11 @@ def vec_shape(t):
 
 
 class Lanes:
-    def __init__(self, func, sources, out_arg=0, lane_sources=None):
+    def __init__(self, func, sources, out_arg=0, lane_sources=None, field_src=None, field_sink=None):
+        # field_src / field_sink: (root arg, pointer-field offset in the handle, field offset, field size[, label])
+        # -> loads from / stores to that member of the context object reached through the handle
+        self.field_src = field_src
+        self.field_sink = field_sink
         """sources: {arg index: (label, block size)} memory laid out block after block;
         lane_sources: {arg index: (label, element bytes)} row-sliced vectors: element j belongs to block j."""
         self.f = func
@@ -92,6 +96,15 @@ class Lanes:
         if a is None:
             self.unknown.append((i, "load through untracked pointer"))
             return tuple(frozenset(["?"]) for _ in range(n))
+        fs = self.field_src
+        if fs and a.root == ("arg", fs[0]) and len(a.segs) == 2 and a.segs[0].off == fs[1]:
+            o = a.segs[1].off
+            if o is not None and fs[2] <= o < fs[2] + fs[3]:
+                # row-sliced member: element j of every row vector belongs to block j
+                return tuple(frozenset([("ctr", j)]) for j in range(n))
+            if o is None and a.segs[1].rng and fs[2] <= a.segs[1].rng[0] < fs[2] + fs[3]:
+                return tuple(frozenset([("ctr", "*")]) for _ in range(n))
+            return tuple(EMPTY for _ in range(n))
         if a.root[0] == "arg" and len(a.segs) == 1:
             k = a.root[1]
             off = a.segs[0].off
@@ -253,10 +266,22 @@ class Lanes:
             if i["op"] != "store":
                 continue
             a = self.am.of(i["ops"][1])
-            if a is None or a.root != ("arg", self.out_arg) or len(a.segs) != 1:
+            if a is None:
                 continue
+            fk = self.field_sink
+            if fk:
+                if not (a.root == ("arg", fk[0]) and len(a.segs) == 2 and a.segs[0].off == fk[1]):
+                    continue
+                o = a.segs[1].off if a.segs[1].off is not None else (a.segs[1].rng[0] if a.segs[1].rng else None)
+                if o is None or not (fk[2] <= o < fk[2] + fk[3]):
+                    continue
+                off = a.segs[1].off - fk[2] if a.segs[1].off is not None else None
+            else:
+                if a.root != ("arg", self.out_arg) or len(a.segs) != 1:
+                    continue
+                off = a.segs[0].off
             sh = vec_shape(i.get("vtype", ""))
             if sh is None:
                 continue
             v = self.broadcast(self.get(i["ops"][0], sh), sh[0])
-            self.stores.append((i, a.segs[0].off, self.to_bytes(v, sh[1])))
+            self.stores.append((i, off, self.to_bytes(v, sh[1])))
